@@ -5,6 +5,7 @@ Theorems over the endpoint model (`Penguin.Mux`): for EVERY endpoint state and E
 Rust code returns instead of panicking is decided by the correspondence run (release build, catch_unwind).
 -/
 import Penguin.Model.Mux
+import Penguin.Model.WsMsg
 import Penguin.Lemmas.MuxBasic
 import Penguin.Lemmas.MuxStep
 import Penguin.Lemmas.MuxBound
@@ -166,5 +167,35 @@ example : Pair.Quiescent (Pair.run ch0 chs) := (Pair.quiescent_iff _).2 (by deci
 example : Pair.moved ch0 chs ≤ Pair.M ch0 := (no_endless_chatter ch0 chs (by decide)).1
 /-- The `Reset` that answers the colliding `Connect` is on the wire after the first four steps. -/
 example : (Pair.run ch0 (chs.take 6)).ab = [.frame (.reset 7)] := by decide
+
+/-! ### Below the frames: what a peer can make the task see at the WebSocket level (`ws.rs`, `Model/WsMsg.lean`) -/
+
+open Penguin.WsMsg in
+/-- Every message a reading WebSocket can deliver (everything but a raw `Frame`) is mapped — no panic —, a text
+    message is exactly the binary message of its bytes (it cannot do more than those bytes could: `process_message`
+    decodes them like any frame and an undecodable one ends the connection with an error, `Props.C10` above),
+    and the control messages carry nothing the peer chose. -/
+theorem ws_incoming_total_and_text_is_binary (m : TMsg) :
+    (m ≠ .frame → (fromT m).isSome = true) ∧
+    (∀ b, fromT (.text b) = fromT (.binary b)) ∧
+    (∀ b b', fromT (.ping b) = fromT (.ping b') ∧ fromT (.pong b) = fromT (.pong b')) ∧
+    (∀ f f', fromT (.close f) = fromT (.close f')) := by
+  refine ⟨?_, fun _ => rfl, fun _ _ => ⟨rfl, rfl⟩, fun _ _ => rfl⟩
+  cases m <;> simp [fromT]
+
+open Penguin.WsMsg in
+/-- What the endpoint sends is read back as what it meant (between two penguin endpoints the mapping loses
+    nothing), binary payloads are untouched in both directions, and a keepalive `Ping` / `Pong` / `Close` goes out
+    with an empty payload. -/
+theorem ws_roundtrip (m : WsMsg.Msg) :
+    fromT (toT m) = some m ∧
+    (∀ b, toT (.binary b) = .binary b ∧ fromT (.binary b) = some (.binary b)) ∧
+    toT .ping = .ping [] ∧ toT .pong = .pong [] ∧ toT .close = .close none := by
+  refine ⟨?_, fun _ => ⟨rfl, rfl⟩, rfl, rfl, rfl⟩
+  cases m <;> rfl
+
+open Penguin.WsMsg in
+example : fromT (.text [0x70, 0, 0, 0, 1]) = some (.binary [0x70, 0, 0, 0, 1]) ∧ fromT .frame = none ∧
+    fromT (.close (some (1000, [98, 121, 101]))) = some .close := by decide
 
 end Penguin.C10
